@@ -13,20 +13,20 @@ PINS = [('plasTeX/Base/LaTeX/Index.py', 'index.invoke'), ('plasTeX/Base/LaTeX/In
         ('plasTeX/Packages/makeidx.py', 'seealso')]
 RULE = ('documents with 1-14 \\index commands scattered between words, paragraphs and sections, followed by \\printindex; entries are '
         'generated from a grammar (1-3 levels, optional sort@ part, |see{..}/|seealso{..}/|textbf/|emph formats, quoted ! @ | and '
-        'double quote, \\textbf{..}/\\emph{..} display parts, control symbols) over a per-case pool of colliding words (mixed case, accented, '
+        'double quote, \\textbf{..}/\\emph{..} display parts, control symbols, accents written as control sequences \\"o \\\'e \\`a \\^o \\~n in both the o and {o} forms, \\! \\@ \\|) over a per-case pool of colliding words (mixed case, accented, '
         'numeric, symbol-initial, blanks) so that equal paths, equal collation keys with different paths and shared prefixes are '
-        'frequent; index-columns 1..4; an exhaustive stream of all sequences up to a length bound (4 quick, 5 thorough) over an 8-entry universe; a column '
+        'frequent; index-columns 1..4; an exhaustive stream of all sequences of length <= 4 over a 9-entry universe (thorough: also length 5 over 6 of them); a column '
         'stream with many top-level entries of varied subtree size; a malformed stream of raw character soups (several @, several |, '
         'trailing/leading !, dangling quote, empty keys, index-columns 0 and 5..7). Non-trivial = at least two entries of which two '
         'share a first-level key or a collation key.')
 TRUSTED = ['modelled, not verified: the collator (pyuca sort_key or the str.lower fallback) as a function ck into integer sequences compared '
            'lexicographically (the order is proved total for the instance; ck itself is a table computed by the collator of the code under test)',
            'modelled, not verified: tex.expandTokens on key tokens -- == of two expanded fragments is taken to be equality of their token '
-           'lists and of their .source strings (hypothesis src_inj); .textContent and .source are the concrete rules tx_c/src_c of the '
-           'Model for the generated token alphabet, compared with the real strings on every case',
+           'lists and of their .source strings (hypothesis src_inj); .textContent and .source are tables computed by the harness rules tx/src_toks '
+           'for the generated token alphabet, compared with the real strings on every case',
            'modelled, not verified: unidecode(c).upper() (table per case), encoding.stringletters() (passed per case)',
            'sorted() is modelled as a stable insertion sort; C18_stable_sort_unique proves every stable sort by the (strict weak) comparator returns the same list']
-ASSUMPTIONS = ['macros in keys are \\textbf/\\emph/\\textit with a braced argument free of special characters; no ~ ^ _ % # & $ as bare characters',
+ASSUMPTIONS = ['macros in keys are \\textbf/\\emph/\\textit with a braced argument free of special characters, accent control sequences applied to a letter with a precomposed form (one spelling, o or {o}, per document: the two expand to equal nodes with different .source), \\! \\@ \\|; no ~ ^ _ % # & $ as bare characters',
                'formats are see{..}, seealso{..}, textbf, emph, textit (a format that leaves \\index-page-number outside a macro argument, '
                'e.g. |( or |), makes IndexUtils.digest raise AttributeError: recorded as an observation, outside the property quantifier)']
 CASE_TIMEOUT = 20
@@ -88,9 +88,53 @@ def print_entry(e):
     return out
 
 
+ACCENTS = {'"': '\u0308', "'": '\u0301', '`': '\u0300', '^': '\u0302', '~': '\u0303'}
+NOTEXT = '@!|'          # \@ \! \| : control symbols without text; NOT the makeindex specials (catcode 0)
+ACC_LETTERS = {'"': 'aeiouyAEIOUY', "'": 'acegilnorsuyzACEGILNORSUYZ', '`': 'aeinouAEINOU', '^': 'aceghijosuwyACEGHIJOSUWY',
+               '~': 'ainouAINOU'}     # pairs for which plasTeX yields the precomposed character (probed); others give letter + odd combining mark
+
+
 def tx(toks):
-    """the Model's tx_c"""
-    return ''.join(s if c in (10, 11, 12) or (c == 0 and s in CTRL and len(s) == 1) else '' for c, s in toks)
+    """the harness rule for .textContent of the expanded tokens (checked against the real string on every case):
+    characters; \\_ \\& ... give their character; an accent control sequence composes with the following letter or {letter}"""
+    import unicodedata
+    out = []
+    i = 0
+    n = len(toks)
+    while i < n:
+        c, s = toks[i]
+        if c in (10, 11, 12):
+            out.append(s)
+        elif c == 0 and s in ACCENTS:
+            if i + 1 < n and toks[i + 1][0] == 11:
+                out.append(unicodedata.normalize('NFC', toks[i + 1][1] + ACCENTS[s]))
+                i += 1
+            elif i + 3 < n and toks[i + 1][0] == 1 and toks[i + 2][0] == 11 and toks[i + 3][0] == 2:
+                out.append(unicodedata.normalize('NFC', toks[i + 2][1] + ACCENTS[s]))
+                i += 3
+        elif c == 0 and len(s) == 1 and s in CTRL:
+            out.append(s)
+        i += 1
+    return ''.join(out)
+
+
+def src_toks(toks):
+    """the harness rule for .source of the expanded tokens"""
+    out = []
+    for c, s in toks:
+        if c == 0:
+            out.append('\\' + s + (' ' if (len(s) == 1 and s in CTRL + NOTEXT) else ''))
+        else:
+            out.append(s)
+    return ''.join(out)
+
+
+def enc_toks(toks):
+    """Model.enc_toks"""
+    out = []
+    for c, s in toks:
+        out += [c, len(s)] + [ord(x) for x in s]
+    return out
 
 
 def py_parse(tokens):
@@ -192,8 +236,32 @@ WORDS = ['a', 'A', 'b', 'B', 'ab', 'Ab', 'aB', 'abc', 'é', 'e', 'E', 'É', 'ü'
          'say"hi', '!', '"', 'ĳ', '☃', '№1', 'č', 'c', 'C', 'Ω', 'ж', '=', '<', '>x', '/', '?', 'x', 'y', 'z', 'Y', 'q']
 
 
-def rand_word(rng):
+def accent(rng, braced):
+    a = rng.choice(list(ACCENTS))
+    l = rng.choice(ACC_LETTERS[a])
+    return [[0, a]] + ([[1, '{'], [11, l], [2, '}']] if braced else [[11, l]])
+
+
+ACC_WORDS = [('Schr', '"', 'o', 'dinger'), ('na', '"', 'i', 've'), ('M', '"', 'u', 'ller'), ('caf', "'", 'e', ''), ('', "'", 'e', 'cole'),
+             ('', '`', 'a', ''), ('r', '^', 'o', 'le'), ('', '~', 'n', 'u'), ('', '"', 'o', ''), ('', '"', 'O', ''), ('', "'", 'a', 'b')]
+
+
+def rand_word(rng, braced=False):
     r = rng.random()
+    if r < 0.14:
+        # accents written as control sequences; the unaccented and the precomposed spellings are in WORDS / below
+        if rng.random() < 0.6:
+            pre, a, l, post = rng.choice(ACC_WORDS)
+            w = text(pre) + [[0, a]] + ([[1, '{'], [11, l], [2, '}']] if braced else [[11, l]]) + text(post)
+        else:
+            w = text(rng.choice(['', 'a', 'Z', 'sch'])) + accent(rng, braced) + text(rng.choice(['', 'x', 'b', ' c']))
+            if rng.random() < 0.3:
+                w += accent(rng, braced)
+        return w
+    if r < 0.2:
+        return text(rng.choice(['Schrodinger', 'Schrödinger', 'naive', 'naïve', 'Muller', 'Müller', 'cafe', 'café', 'ö', 'o', 'à', 'ñu', 'nu', 'role', 'rôle']))
+    if r < 0.23:
+        return text(rng.choice(['a', 'x', ''])) + [[0, rng.choice(NOTEXT)]] + text(rng.choice(['b', '', 'y']))
     if r < 0.8:
         return text(rng.choice(WORDS))
     if r < 0.9:
@@ -209,8 +277,8 @@ def rand_level(rng, pool):
     if r < 0.75:
         return (rng.choice(pool), w)                                # sort@display, both from the pool
     if r < 0.9:
-        return (w, mac(rng.choice(['textbf', 'emph', 'textit']), [t for t in w if t[0] != 0] or text('a')))  # sort@\textbf{display}
-    return (None, mac(rng.choice(['textbf', 'emph']), [t for t in w if t[0] != 0] or text('a')))
+        return (w, mac(rng.choice(['textbf', 'emph', 'textit']), [t for t in w if t[0] in (10, 11, 12)] or text('a')))  # sort@\textbf{display}
+    return (None, mac(rng.choice(['textbf', 'emph']), [t for t in w if t[0] in (10, 11, 12)] or text('a')))
 
 
 def rand_fmt(rng):
@@ -227,7 +295,8 @@ def rand_fmt(rng):
 
 
 def rand_structured(rng, nmax=14):
-    pool = [rand_word(rng) for _ in range(rng.randint(2, 6))]
+    braced = rng.random() < 0.5      # one spelling of accent arguments per document: \"o and \"{o} expand to equal nodes with different .source
+    pool = [rand_word(rng, braced) for _ in range(rng.randint(2, 6))]
     if rng.random() < 0.5:      # case / accent variants of the same word collide under every collator at some level
         w = rng.choice(['a', 'b', 'e', 'zeta', 'ab', 'u', 'o'])
         pool += [text(w), text(w.upper()), text(w.capitalize())]
@@ -259,6 +328,7 @@ UNIVERSE = [
     dict(levels=[(text('b'), mac('textbf', text('b')))], fmt=None),
     dict(levels=[(None, text('a'))], fmt=('see', [[1, '{']] + text('b') + [[2, '}']])),
     dict(levels=[(None, text('☃'))], fmt=None),
+    dict(levels=[(None, [[0, '"'], [11, 'o']])], fmt=None),      # \"o : the accent control sequence is not the quote character
 ]
 
 SOUP = ['a', 'b', 'B', 'a', ' ', '!', '!', '@', '@', '|', '|', '"', '"', 't', 'x', 'é', '1']
@@ -269,6 +339,12 @@ def rand_soup(rng):
         n = rng.randint(0, 9)
         toks = []
         for _ in range(n):
+            if rng.random() < 0.12:
+                if rng.random() < 0.6:
+                    toks += [[0, rng.choice('"\'`^~')], [11, rng.choice('aou')]]      # an accent control sequence and its letter
+                else:
+                    toks.append([0, rng.choice(NOTEXT)])                               # \! \@ \| are not the specials
+                continue
             c = rng.choice(SOUP)
             if c == ' ' and (not toks or toks[-1][1] == ' '):
                 continue
@@ -282,7 +358,7 @@ def rand_soup(rng):
         while toks and toks[-1][1] == ' ':
             toks.pop()
         k, s, f = py_parse(toks)
-        if fmt_ok(f) and all(t[0] != 0 for x in k for t in x):
+        if fmt_ok(f):
             return toks
     return text('a')
 
@@ -295,11 +371,15 @@ def streams(rng, tier, boost):
     out = []
     quick = tier == 'quick'
     # exhaustive small scope: all sequences over the universe up to a length bound
-    bound = (4 if quick else 5) + (1 if boost > 1 and quick else 0)
-    for n in range(1, bound + 1):
-        for combo in itertools.product(range(len(UNIVERSE)), repeat=n):
+    # a changed pin multiplies the random streams only (9^5 sequences would take a run past its budget)
+    def exh(idx, n):
+        for combo in itertools.product(idx, repeat=n):
             out.append(('exhaustive', dict(kind='exhaustive', entries=[print_entry(UNIVERSE[i]) for i in combo],
                                            spec=[UNIVERSE[i] for i in combo], cols=1 + (sum(combo) + n) % 3, filler=0)))
+    for n in range(1, 5):
+        exh(range(len(UNIVERSE)), n)
+    if not quick:
+        exh([0, 1, 2, 3, 5, 8], 5)      # length 5 over b, B, a!x, A!y, b@\textbf{b}, \"o
     for _ in range((3000 if quick else 30000) * boost):
         out.append(('structured', case_of('structured', rand_structured(rng), rng.choice([1, 2, 2, 3, 4]), rng)))
     for _ in range((600 if quick else 5000) * boost):
@@ -354,17 +434,20 @@ def wire_tok(t):
 
 def model_input(case):
     strings = set()
+    toklists = {}
     for e in case['entries']:
         k, s, f = py_parse(e)
-        for x in s:
+        for x in s + k:
             strings.add(tx(x))
-        for x in k:
-            strings.add(tx(x))
+            toklists[tuple(enc_toks(x))] = x
     chars = sorted({s[0] for s in strings if s})
+    keys = sorted(toklists)
     return [[[wire_tok(t) for t in e] for e in case['entries']], case['cols'],
             [[S(s), ck(s)] for s in sorted(strings)],
             [[ord(c), S(ud(c))] for c in chars],
-            S(ext()[2])]
+            S(ext()[2]),
+            [[list(k), S(tx(toklists[k]))] for k in keys],
+            [[list(k), S(src_toks(toklists[k]))] for k in keys]]
 
 
 # ---- implementation -------------------------------------------------------------------------------
@@ -540,15 +623,8 @@ def spec_violations(case, io):
 
 
 def src_model(k):
-    """the Model's src_c on wire tokens [cat, codes]"""
-    out = []
-    for c, codes in k:
-        s = unS(codes)
-        if c == 0:
-            out.append('\\' + s + (' ' if (len(s) == 1 and s in CTRL) else ''))
-        else:
-            out.append(s)
-    return ''.join(out)
+    """the source rule on wire tokens [cat, codes]"""
+    return src_toks([[c, unS(codes)] for c, codes in k])
 
 
 def judge(case, io, mo):
